@@ -100,7 +100,15 @@ type c04RealDef struct {
 
 func c04GenReal(rng *verifkit.Rand) c04RealDef {
 	fl := []string{"svc"}
-	switch rng.Intn(9) {
+	switch rng.Intn(11) {
+	case 9:
+		// a matching rule with SampleRate 0 (or omitted), no Drop, no downstream sampler: passes validation; it must
+		// not keep anything (rate 0 is not a sample rate)
+		return c04RealDef{"rules-rate-0", &config.V2SamplerChoice{RulesBasedSampler: &config.RulesBasedSamplerConfig{Rules: []*config.RulesBasedSamplerRule{{Name: "zero", SampleRate: 0}}}}}
+	case 10:
+		return c04RealDef{"rules-rate-0-by-field", &config.V2SamplerChoice{RulesBasedSampler: &config.RulesBasedSamplerConfig{Rules: []*config.RulesBasedSamplerRule{
+			{Name: "zero-for-api", Conditions: []*config.RulesBasedSamplerCondition{e1Cond("svc", "=", "api")}},
+			{Name: "rest", SampleRate: verifkit.Pick(rng, 1, 2)}}}}}
 	case 8:
 		return c04RealDef{"windowedthroughput", &config.V2SamplerChoice{WindowedThroughputSampler: &config.WindowedThroughputSamplerConfig{GoalThroughputPerSec: verifkit.Pick(rng, 1, 5, 100), FieldList: fl}}}
 	case 0:
